@@ -1,0 +1,25 @@
+//go:build verif
+
+// Contracts for the KV client wrappers (C07), checked by /verif/govc (comment-only file).
+
+package kv
+
+//@ # the prefixing wrapper forwards to exactly one inner compare-and-swap and returns its verdict
+//@ func prefixedKVClient.CAS
+//@   property C07
+//@   ghost var inner int = 0
+//@   ghost var verdict error = havoc
+//@   at after@kv.Client.CAS: inner := inner + 1
+//@   at after@kv.Client.CAS: verdict := $r0
+//@   ensures inner == 1 && result == verdict
+//@
+//@ # the multi client runs exactly one compare-and-swap on the primary store and mirrors only after it succeeded,
+//@ # and only when the function produced a value
+//@ func MultiClient.CAS
+//@   property C07
+//@   ghost var primary int = 0
+//@   ghost var verdict error = havoc
+//@   at after@kv.Client.CAS: primary := primary + 1
+//@   at after@kv.Client.CAS: verdict := $r0
+//@   at before@kv.MultiClient.writeToSecondary: assert verdict == nil && updatedValue != nil && primary == 1
+//@   ensures primary == 1 && result == verdict
